@@ -1393,6 +1393,28 @@ fn sub_lowlevel(c: &mut Case) -> CaseResult {
     let lim = pow10_i128(38) - 1;
     let mut vals: Vec<PV> = (0..n)
         .map(|_| match kind {
+            1 if !strict => {
+                // mixed byte lengths inside the region where compare_greater_byte_array_decimals is right on the
+                // unchanged tree: every value of two or more bytes starts with a byte that is NOT its sign's extension
+                // byte (so the longer of two same-sign values always has significant lead bytes and the unaligned
+                // a[1..] > b[1..] fall-through of the reported finding is never reached); one-byte values are free
+                let len = match t.below(6) {
+                    0 => 1,
+                    1 | 2 => 1 + t.below(3),
+                    3 | 4 => 1 + t.below(6),
+                    _ => 1 + t.below(15),
+                };
+                let neg = t.chance(128);
+                let mut b: Vec<u8> = (0..len).map(|_| *t.pick(&[0u8, 1, 0x7f, 0x80, 0xfe, 0xff, 0x35, 0xc2]) ^ (t.below(3) as u8)).collect();
+                if len >= 2 {
+                    b[0] = if neg { 0x80 + (b[0] % 0x7f) } else { 1 + (b[0] % 0x7f) };
+                } else if neg {
+                    b[0] |= 0x80;
+                } else {
+                    b[0] &= 0x7f;
+                }
+                PV::Bytes(b)
+            }
             0 | 1 => {
                 let v = if t.chance(160) { gen_int_in(t, -70000, 70000) } else { gen_int_in(t, -lim, lim) };
                 let mut b = minimal_be(v);
@@ -1499,8 +1521,11 @@ fn sub_lowlevel(c: &mut Case) -> CaseResult {
     if excluded_trunc {
         c.exclude("C07-decimal-bytearray-truncated");
     }
-    if kind <= 1 && !strict {
+    if kind == 0 && !strict {
         c.exclude("C07-decimal-bytearray-length-compare");
+    }
+    if kind == 1 && !strict {
+        c.class("lowlevel:decimal_mixed_lengths_significant_lead");
     }
     let bytes = Bytes::from(buf);
     let rows: Vec<(usize, Vec<PV>)> = vals.iter().zip(&def).map(|(v, d)| (1usize, if *d == 1 { vec![v.clone()] } else { vec![] })).collect();
